@@ -170,7 +170,7 @@ def main(tier):
                 break
     if nvalid < len(files):
         run.note('only %d of the %d "valid" files load on this tree (the others cannot contribute successful mutations)' % (nvalid, len(files)))
-    if (tot['fail'] < 10000 or tot['ok'] < 1000) and not run.violations:
+    if (tot['fail'] < 10000 or tot['ok'] < 1000) and not run.violations and not run.capped:
         raise common.HarnessError('vacuous: %s' % tot)
     cov = {'evaluations': tot['total'], 'distinct_nontrivial': tot['fail'],
            'rule': 'every candidate is a distinct (prior state, byte string) pair; non-trivial = conf_read() reported an error, so the no-change clause was evaluated on it '
